@@ -1546,6 +1546,9 @@ def run(ck):
     from ..x_valuewalk import split_ifexp_assign
 
     ck.repo = split_ifexp_assign(ck.repo, T, ['generate'])
+    from ..x_valuewalk import coalesce_copies
+
+    ck.repo = coalesce_copies(ck.repo, T, ['generate'])
     guard_obligations(ck, ['_parse', '_get_ancestors', '_generate_python', '_format_code', '_create_template', '_find_directive'])
     ck.rule("C19.raise-class", "every raise statement in the call closure of _parse / _get_ancestors constructs ParseError; a helper raising another class is only called behind a handler that raises ParseError or a membership guard over the values it accepts")
     ck.rule("C19.error-line", "raise_parse_error raises ParseError(message, reader.name, reader.line); ParseError keeps them; consume() advances reader.line by the newlines of exactly the consumed span before moving pos; _parse never raises directly")
